@@ -1,4 +1,11 @@
 import Driver.Codec
+import Driver.Queue
+import Driver.Value
+import Driver.Engine
+import Driver.Aof
+import Driver.Text
+import Driver.Elect
+import Driver.Repl
 /-! `slockmodel`: reads one operation per line on stdin, prints the model's observation per line. -/
 namespace Driver
 
@@ -8,7 +15,8 @@ def dispatch (line : String) : String :=
   | [] => ""
   | "#" :: _ => line
   | _ =>
-    match handleCodec toks with
+    match handleCodec toks <|> handleQueue toks <|> handleValue toks <|> handleEngine toks <|> handleAof toks
+        <|> handleText toks <|> handleElect toks <|> handleRepl toks with
     | some r => r
     | none => "bad-op"
 
